@@ -31,8 +31,33 @@ SPLIT = dict(quick=2, thorough=4)
 
 
 def units(tier, seed):
-    return [dict(name=f'search:{n}:{k}', logic=n, part=k, parts=SPLIT[tier])
-            for n in lib.STATIC_LOGICS for k in range(SPLIT[tier])]
+    us = [dict(name=f'search:{n}:{k}', logic=n, part=k, parts=SPLIT[tier])
+          for n in lib.STATIC_LOGICS for k in range(SPLIT[tier])]
+    # determinism sentinel: the same cases in two fresh processes must give the same step histories
+    us += [dict(name=f'sentinel:{i}', sentinel=i) for i in range(2)]
+    return us
+
+
+def run_sentinel(unit, out, tier, seed):
+    rng = random.Random(f'{seed}:sentinel')
+    for name in ('K', 'S4', 'CFOL', 'S5K3WQ', 'TFDE', 'D'):
+        S = rsem.sem(name)
+        cases = list(workload.cases(name, tabs.uses_designation(name), rng, n_random=6, with_examples=False))
+        for i, (label, frag, arg) in enumerate(cases[::7]):
+            for order in (0, 3):
+                r = pc.run_cfg(name, arg, dict(group_optim=True, rank_optim=True), 'build', order, tier)
+                out.count('sentinel_runs')
+                out.cover('sentinel_signatures', f'{name}:{i}:{order}:{r.signature}:{r.outcome}')
+    out.case(('sentinel', unit['sentinel']), nontrivial=False)
+
+
+def finalize(agg):
+    sets = [set(r.get('covers', {}).get('sentinel_signatures', ())) for r in agg['results'] if r.get('unit', '').startswith('sentinel:')]
+    agg['covers'].pop('sentinel_signatures', None)
+    if len(sets) == 2 and sets[0] and sets[0] == sets[1]:
+        return dict(replay_fidelity='bit-for-bit across fresh processes (determinism sentinel: %d runs, identical step-history signatures)' % len(sets[0]))
+    return dict(replay_fidelity='same-process-only (determinism sentinel disagreed or did not run)',
+                sentinel_mismatches=len(sets[0] ^ sets[1]) if len(sets) == 2 else None)
 
 
 def configs(tier):
@@ -56,6 +81,8 @@ def premise_variants(arg, rng):
 
 
 def run_unit(unit, out, tier, seed):
+    if 'sentinel' in unit:
+        return run_sentinel(unit, out, tier, seed)
     name = unit['logic']
     if name not in lib.logic_names():
         out.note(f'logic {name} no longer registered')
